@@ -2,7 +2,6 @@ package main
 
 import (
 	"fmt"
-	"sort"
 	"strings"
 
 	"github.com/anishathalye/porcupine"
@@ -202,23 +201,34 @@ func (h HOp) String() string {
 	return fmt.Sprintf("T%d [%d,%d] %v -> %v", h.Thread, h.Call, h.Ret, h.In, h.Out)
 }
 
-// canonical text of a history: timestamps replaced by their ranks
+// canonical text of a history: the operations with their results plus the real-time precedence relation
+// (which call returned before which other call was invoked) - that is all linearizability depends on
 func histKey(ops []HOp) string {
-	ts := make([]int64, 0, 2*len(ops))
-	for _, o := range ops {
-		ts = append(ts, o.Call, o.Ret)
-	}
-	sort.Slice(ts, func(i, j int) bool { return ts[i] < ts[j] })
-	rank := map[int64]int{}
-	for _, t := range ts {
-		if _, ok := rank[t]; !ok {
-			rank[t] = len(rank)
-		}
-	}
 	var sb strings.Builder
 	for _, o := range ops {
-		fmt.Fprintf(&sb, "%d|%v|%v|%d|%d;", o.Thread, o.In, o.Out, rank[o.Call], rank[o.Ret])
+		fmt.Fprintf(&sb, "%d|%v|%v;", o.Thread, o.In, o.Out)
 	}
+	bits := make([]byte, 0, len(ops)*len(ops)/8+1)
+	var cur byte
+	n := 0
+	for i := range ops {
+		for j := range ops {
+			if i == j {
+				continue
+			}
+			cur <<= 1
+			if ops[i].Ret < ops[j].Call {
+				cur |= 1
+			}
+			n++
+			if n%8 == 0 {
+				bits = append(bits, cur)
+				cur = 0
+			}
+		}
+	}
+	bits = append(bits, cur)
+	sb.Write(bits)
 	return sb.String()
 }
 
@@ -236,6 +246,9 @@ func (lc *linChecker) Check(ops []HOp) bool {
 	k := histKey(ops)
 	if v, ok := lc.cache[k]; ok {
 		return v
+	}
+	if len(lc.cache) > 300_000 {
+		lc.cache = map[string]bool{} // bounded memory: verdicts are recomputed if they come up again
 	}
 	pops := make([]porcupine.Operation, len(ops))
 	for i, o := range ops {
